@@ -12,9 +12,9 @@ Local Open Scope Q_scope.
    [0,total] summing to total; every retained number j is sum_i x_ij * gen_i with integer multiplicities
    0 <= x_ij <= max_multiplicity (products exact through the C12 bridges); gen_0 <= .. <= gen_(k-2);
    partition block: every element in exactly one part of every constraint, part sums as given *)
-Theorem C15_genset_rows_sound : forall (I : mgs_inst) (k : nat), (1 <= mg_mult I)%nat ->
-  forall a : var -> Q, sat a (encode_mgs I k) -> mgs_sem I k a.
-Proof. exact mgs_enc_sound. Qed.
+Theorem C15_genset_rows_sound : forall (I : mgs_inst) (k : nat) (a : var -> Q), (1 <= mg_mult I)%nat ->
+  sat a (encode_mgs I k) -> mgs_sem (prod_ub I) (pi_ub I) I k a.
+Proof. exact mgs_enc_sound_code. Qed.
 Print Assumptions C15_genset_rows_sound.
 
 Theorem C15_genset_rows_give_generating_multiset : forall (I : mgs_inst) (k : nat) (a : var -> Q),
@@ -24,73 +24,92 @@ Theorem C15_genset_rows_give_generating_multiset : forall (I : mgs_inst) (k : na
 Proof. exact mgs_sound_multiset. Qed.
 Print Assumptions C15_genset_rows_give_generating_multiset.
 
-(* PARTIAL: the converse (every sorted generating multiset of size k is admitted by the rows) is not proved;
-   it is FALSE of the faithful model for max_multiplicity > 1 (bit width, see C15_multiplicity_bits_refuted) *)
+(* PARTIAL: the converse (every sorted generating multiset of size k is admitted by the rows) is not proved.
+   What is proved towards it: the multiplicity's bit vector (sized from max(total, max_multiplicity), b959a54)
+   represents every value 0 .. max_multiplicity *)
 Definition C15_genset_rows_complete_full_statement : Prop := forall (I : mgs_inst) (k : nat) (g : list Q),
   (1 <= mg_mult I)%nat -> mg_parts I = None -> length g = k -> genset (mg_mult I) (mg_numbers I) (mg_total I) g ->
   exists a, sat a (encode_mgs I k).
-Theorem C15_multiplicity_bits_refuted : exists (I : mgs_inst) (k : nat) (g : list Q),
+Theorem C15_multiplicity_bits_suffice : forall I : mgs_inst, 0 <= mg_total I ->
+  (Z.of_nat (mg_mult I) < 2 ^ Z.of_nat (num_bits (prod_ub I)))%Z.
+Proof. exact mgs_bits_suffice. Qed.
+Print Assumptions C15_multiplicity_bits_suffice.
+(* FIXED FINDING (mgs_multiplicity_cut_by_bit_width, b959a54): the old encoder (bits from total only) has no solution
+   for k = 2 on numbers [1/2, 1/4], total 1, multiplicity 2 although {1/4, 3/4} generates both *)
+Theorem C15_old_multiplicity_bits_refuted : exists (I : mgs_inst) (k : nat) (g : list Q),
   mg_mult I = 2%nat /\ length g = k /\ genset (mg_mult I) (mg_numbers I) (mg_total I) g /\
-  forall a, ~ sat a (encode_mgs I k).
-Proof. exact mgs_multiplicity_bits_refuted. Qed.
-Print Assumptions C15_multiplicity_bits_refuted.
+  (forall a, ~ sat a (encode_mgs_old I k)) /\ (Z.of_nat (mg_mult I) < 2 ^ Z.of_nat (num_bits (prod_ub I)))%Z.
+Proof. exact mgs_old_multiplicity_bits_refuted. Qed.
+Print Assumptions C15_old_multiplicity_bits_refuted.
 
-(* __init__: removing total, zero, duplicates and complements is sound for max_multiplicity = 1 ... *)
-Theorem C15_complement_removal_sound : forall (numbers : list Q) (total : Q) (g : list Q),
-  genset 1 (mgs_preprocess true numbers total) total g -> genset 1 numbers total g.
+(* FIXED FINDING (mgs_pi_bounded_by_total, a068bcc): with multiplicities a number may exceed the total; the old encoder
+   bounded the products by the total and admitted nothing for k = 1 on numbers [1,2], total 1, multiplicity 2,
+   which {1} generates; the encoder as it is now (pi <= max(total, numbers)) has a solution for k = 1 *)
+Theorem C15_pi_bound_old_refuted : exists (I : mgs_inst) (k : nat),
+  genset (mg_mult I) (mg_numbers I) (mg_total I) [1] /\ k = 1%nat /\
+  (exists a, sat a (encode_mgs I k)) /\ forall a, ~ sat a (encode_mgs_pi_old I k).
+Proof. exact mgs_pi_bound_old_refuted. Qed.
+Print Assumptions C15_pi_bound_old_refuted.
+
+(* __init__ as it is now (complements removed only for max_multiplicity = 1, 295fbde): removing total, zero,
+   duplicates and complements loses nothing, for every max_multiplicity >= 1 *)
+Theorem C15_complement_removal_sound : forall (mult : nat) (numbers : list Q) (total : Q) (g : list Q), (1 <= mult)%nat ->
+  genset mult (mgs_preprocess true mult numbers total) total g -> genset mult numbers total g.
 Proof. exact complement_removal_sound. Qed.
 Print Assumptions C15_complement_removal_sound.
 
-(* ... OPEN FINDING (mgs_complement_removal_with_multiplicity): and unsound for larger multiplicities, where the code applies it too *)
-Theorem C15_complement_removal_refuted : exists numbers total g,
-  genset 2 (mgs_preprocess true numbers total) total g /\ ~ genset 2 numbers total g.
-Proof. exact complement_removal_refuted. Qed.
-Print Assumptions C15_complement_removal_refuted.
+(* FIXED FINDING (mgs_complement_removal_with_multiplicity, 295fbde): the old pre-processing removed complements for
+   every multiplicity, which is unsound *)
+Theorem C15_complement_removal_old_refuted : exists numbers total g,
+  genset 2 (mgs_preprocess_old true numbers total) total g /\ ~ genset 2 numbers total g /\
+  mgs_preprocess true 2 numbers total = numbers.
+Proof. exact complement_removal_old_refuted. Qed.
+Print Assumptions C15_complement_removal_old_refuted.
 
-(* solve() as it is now (after fixes 03febc7, 2966290): an answer k means the model for k was optimal and every
+(* solve() as it is now (after fixes 03febc7, 2966290, 883b781; range lowerbound .. len(numbers)+1+extra_cuts): an answer k means the model for k was optimal and every
    size from the lower bound up to k-1 was proven infeasible: k is the least feasible size >= lowerbound *)
 Theorem C15_loop_sound : forall (feasible : nat -> Prop) (status : nat -> mstatus),
   (forall k, status k = MgOptimal -> feasible k) -> (forall k, status k = MgInfeasible -> ~ feasible k) ->
-  forall lb n tried k, mgsm_loop status lb n = (tried, Some k) ->
-  feasible k /\ In k (mgsm_range lb n) /\ (lb <= k)%nat /\ forall k', (lb <= k' < k)%nat -> ~ feasible k'.
+  forall lb n extra tried k, mgsm_loop status lb n extra = (tried, Some k) ->
+  feasible k /\ In k (mgsm_range lb n extra) /\ (lb <= k)%nat /\ forall k', (lb <= k' < k)%nat -> ~ feasible k'.
 Proof. exact mgsm_loop_sound. Qed.
 Print Assumptions C15_loop_sound.
 
 (* unsolved: the whole range was proven infeasible, or the loop stopped at an inconclusive status *)
 Theorem C15_loop_unsolved : forall (feasible : nat -> Prop) (status : nat -> mstatus),
   (forall k, status k = MgInfeasible -> ~ feasible k) ->
-  forall lb n tried, mgsm_loop status lb n = (tried, None) ->
-  (tried = mgsm_range lb n /\ forall k, In k (mgsm_range lb n) -> ~ feasible k) \/
+  forall lb n extra tried, mgsm_loop status lb n extra = (tried, None) ->
+  (tried = mgsm_range lb n extra /\ forall k, In k (mgsm_range lb n extra) -> ~ feasible k) \/
   (exists k, In k tried /\ status k = MgOther).
 Proof. exact mgsm_loop_none. Qed.
 Print Assumptions C15_loop_unsolved.
 
-(* with conclusive statuses solve() succeeds whenever some size in lowerbound .. len(numbers)+1 is feasible.
-   PARTIAL: that a generating multiset of size <= len(numbers)+1 exists whenever one exists at all (differences of
-   the sorted numbers; false with partition constraints, see the open finding mgs_range_ignores_partition_constraints)
-   is not proved in Coq; it is sampled by E2 *)
+(* with conclusive statuses solve() succeeds whenever some size in lowerbound .. len(numbers)+1+extra_cuts is feasible.
+   PARTIAL: that a generating multiset of at most that size exists whenever one exists at all (cut-point construction:
+   the numbers and the prefix sums of every partition constraint as cut points of [0,total]) is not proved in Coq;
+   it is sampled by E2 *)
 Theorem C15_loop_complete_partial : forall (feasible : nat -> Prop) (status : nat -> mstatus),
   (forall k, status k = MgInfeasible -> ~ feasible k) ->
-  forall lb n, (forall k, status k = MgOptimal \/ status k = MgInfeasible) ->
-  (exists k, In k (mgsm_range lb n) /\ feasible k) -> exists tried k, mgsm_loop status lb n = (tried, Some k).
+  forall lb n extra, (forall k, status k = MgOptimal \/ status k = MgInfeasible) ->
+  (exists k, In k (mgsm_range lb n extra) /\ feasible k) -> exists tried k, mgsm_loop status lb n extra = (tried, Some k).
 Proof. exact mgsm_loop_complete. Qed.
 Print Assumptions C15_loop_complete_partial.
 Definition C15_loop_complete_full_statement : Prop := forall (I : mgs_inst) (n_initial : nat) (status : nat -> mstatus),
   (forall k, status k = MgOptimal <-> exists a, sat a (encode_mgs I k)) -> (forall k, status k <> MgOther) ->
   (length (mg_numbers I) <= n_initial)%nat -> (exists k a, (1 <= k)%nat /\ sat a (encode_mgs I k)) ->
-  exists tried k, mgsm_loop status 1 n_initial = (tried, Some k).
+  exists tried k, mgsm_loop status 1 n_initial (extra_cuts (mg_parts I)) = (tried, Some k).
 
 (* FIXED FINDING (mgs_upper_end_exclusive, 2966290): the old range excluded sizes len(numbers) and len(numbers)+1 *)
 Theorem C15_loop_old_upper_end_refuted : exists numbers total,
   (exists g, length g = 2%nat /\ genset 1 numbers total g) /\
   (forall g, length g = 1%nat -> ~ genset 1 numbers total g) /\
-  In 2%nat (mgsm_range 1 (length numbers)) /\ ~ In 2%nat (mgsm_range_old 1 (length numbers)) /\
+  In 2%nat (mgsm_range 1 (length numbers) 0) /\ ~ In 2%nat (mgsm_range_old 1 (length numbers)) /\
   forall status, snd (mgsm_loop_old status 1 (length numbers)) = None \/ snd (mgsm_loop_old status 1 (length numbers)) = Some 1%nat.
 Proof. exact mgsm_loop_old_upper_end_refuted. Qed.
 Print Assumptions C15_loop_old_upper_end_refuted.
 Theorem C15_loop_old_upper_end_refuted2 : exists numbers total,
   (exists g, length g = 3%nat /\ genset 1 numbers total g) /\
-  ~ In 3%nat (mgsm_range_old 1 (length numbers)) /\ In 3%nat (mgsm_range 1 (length numbers)).
+  ~ In 3%nat (mgsm_range_old 1 (length numbers)) /\ In 3%nat (mgsm_range 1 (length numbers) 0).
 Proof. exact mgsm_loop_old_upper_end_refuted2. Qed.
 Print Assumptions C15_loop_old_upper_end_refuted2.
 
@@ -98,14 +117,27 @@ Print Assumptions C15_loop_old_upper_end_refuted2.
    as solved; the loop as it is now ends unsolved on the same status history *)
 Theorem C15_loop_old_skips_inconclusive_refuted : exists (status : nat -> mstatus) lb n tried k,
   status 1%nat = MgOther /\ mgsm_loop_old status lb n = (tried, Some k) /\ In 1%nat tried /\ (1 < k)%nat /\
-  mgsm_loop status lb n = ([1%nat], None).
+  mgsm_loop status lb n 0 = ([1%nat], None).
 Proof. exact mgsm_loop_old_skips_inconclusive_refuted. Qed.
 Print Assumptions C15_loop_old_skips_inconclusive_refuted.
 
-(* OPEN FINDING (mgs_int_truncation): int() of a value inside the integrality tolerance below 3 is 2 *)
-Theorem C15_int_truncation_refuted : exists q : Q, 3 - (1 # 1000000) <= q /\ q < 3 /\ py_int q = 2%Z.
+(* FIXED FINDING (mgs_range_ignores_partition_constraints, 883b781): the range without the extra cut points misses
+   the size-4 set {1,1,2,2} forced by the constraints [2,2,2] and [6]; the range as it is now contains it *)
+Theorem C15_range_old_partition_refuted : exists numbers total parts g,
+  length g = 4%nat /\ genset 1 numbers total g /\ Forall (part_ok g) parts /\
+  ~ In 4%nat (mgsm_range 1 (length numbers) 0) /\ In 4%nat (mgsm_range 1 (length numbers) (extra_cuts (Some parts))).
+Proof. exact mgsm_range_old_partition_refuted. Qed.
+Print Assumptions C15_range_old_partition_refuted.
+
+(* reading integer solver values: round() (the code as it is, f5a395c) returns the integer a value lies within 1/2 of *)
+Theorem C15_round_reads_integer : forall (q : Q) (z : Z),
+  inject_Z z - (1 # 2) < q -> q < inject_Z z + (1 # 2) -> py_round_half_even q = z.
+Proof. exact py_round_near. Qed.
+Print Assumptions C15_round_reads_integer.
+(* FIXED FINDING (mgs_int_truncation, f5a395c): int(), used before, truncates a value just below 3 to 2 *)
+Theorem C15_int_truncation_old_refuted : exists q : Q, 3 - (1 # 1000000) <= q /\ q < 3 /\ py_int q = 2%Z.
 Proof. exact py_int_truncates_refuted. Qed.
-Print Assumptions C15_int_truncation_refuted.
+Print Assumptions C15_int_truncation_old_refuted.
 
 (* MinSetCover: the rows are satisfied exactly by the 0/1 choices whose chosen subsets cover the universe;
    the objective is the total weight of the choice *)
@@ -114,18 +146,23 @@ Theorem C15_setcover_rows_exact : forall (I : msc_inst) (m : milp) (a : var -> Q
 Proof. exact msc_enc_exact. Qed.
 Print Assumptions C15_setcover_rows_exact.
 
-Theorem C15_setcover_objective_is_weight : forall (I : msc_inst) (m : milp) (a : var -> Q) (ws : list Q),
-  sc_weights I = Some ws -> encode_msc I = Some m ->
-  objective a m == sumq (fun iw => snd iw * a (Sub (fst iw))) (zipn 0 (firstn (length (sc_subsets I)) ws)).
+Theorem C15_setcover_objective_is_weight : forall (I : msc_inst) (m : milp) (a : var -> Q),
+  encode_msc I = Some m ->
+  objective a m == sumq (fun iw => snd iw * a (Sub (fst iw))) (zipn 0 (firstn (length (sc_subsets I)) (msc_weights I))).
 Proof. exact msc_objective_is_weight. Qed.
 Print Assumptions C15_setcover_objective_is_weight.
 
-(* OPEN FINDING (msc_default_weights_typeerror): the documented default builds no model *)
-Theorem C15_setcover_default_weights_refuted : exists I : msc_inst,
-  sc_weights I = None /\ encode_msc I = None /\
+(* default subset_weights=None (4e8a1f8): a model is built and its objective counts the chosen subsets *)
+Theorem C15_setcover_default_weights_unit : forall (I : msc_inst) (a : var -> Q), sc_weights I = None ->
+  exists m, encode_msc I = Some m /\ objective a m == sumq (fun j => a (Sub j)) (idxs (sc_subsets I)).
+Proof. exact msc_default_weights_unit. Qed.
+Print Assumptions C15_setcover_default_weights_unit.
+(* FIXED FINDING (msc_default_weights_typeerror, 4e8a1f8): before the fix the default built no model *)
+Theorem C15_setcover_default_weights_old_refuted : exists I : msc_inst,
+  sc_weights I = None /\ encode_msc_old I = None /\ encode_msc I <> None /\
   (forall el, In el (sc_universe I) -> exists S, In S (sc_subsets I) /\ nmem el S = true).
-Proof. exact msc_default_weights_refuted. Qed.
-Print Assumptions C15_setcover_default_weights_refuted.
+Proof. exact msc_old_default_weights_refuted. Qed.
+Print Assumptions C15_setcover_default_weights_old_refuted.
 
 (* ---- non-vacuity ---- *)
 (* a satisfiable MinGenSet model: numbers [1;2], total 3, k = 2 (assignment Gen = 1,2; X = identity) *)
@@ -136,14 +173,14 @@ Definition ex_mgs_a (v : var) : Q :=
   | [i; j] => if (i =? j)%N then (if (vfam v =? fX)%N then 1 else if (vfam v =? fPi)%N then (if (i =? 0)%N then 1 else 2) else 0) else 0
   | _ => 0
   end.
-Example C15_nonvacuous_genset : sat ex_mgs_a (encode_mgs ex_mgs 2) /\ mgsm_loop (fun k => if (k =? 2)%nat then MgOptimal else MgInfeasible) 1 3 = ([1; 2]%nat, Some 2%nat) /\ mgsm_range 1 3 = [1; 2; 3; 4]%nat.
+Example C15_nonvacuous_genset : sat ex_mgs_a (encode_mgs ex_mgs 2) /\ mgsm_loop (fun k => if (k =? 2)%nat then MgOptimal else MgInfeasible) 1 3 0 = ([1; 2]%nat, Some 2%nat) /\ mgsm_range 1 3 2 = [1; 2; 3; 4; 5; 6]%nat.
 Proof.
   split; [split|split; reflexivity].
   - apply Forall_dec_cols. vm_compute. reflexivity.
   - apply Forall_dec_rows. vm_compute. reflexivity.
 Qed.
-Example C15_nonvacuous_preprocess : mgs_preprocess true [1; 6; 3; 4; 3; 7; 0] 7 = [1; 3].
-Proof. vm_compute. reflexivity. Qed.
+Example C15_nonvacuous_preprocess : mgs_preprocess true 1 [1; 6; 3; 4; 3; 7; 0] 7 = [1; 3] /\ mgs_preprocess true 2 [1; 6; 3; 4; 3; 7; 0] 7 = [1; 6; 4; 3].
+Proof. split; vm_compute; reflexivity. Qed.
 (* a satisfiable MinSetCover model *)
 Example C15_nonvacuous_setcover : exists m, encode_msc {| sc_universe := [1; 2; 3]%N; sc_subsets := [[1; 2]; [2; 3]; [3]]%N; sc_weights := Some [1; 1; 1] |} = Some m /\
   sat (fun v => match vidx v with [i] => if (i =? 2)%N then 0 else 1 | _ => 0 end) m.
